@@ -6,7 +6,7 @@ FV=./target/debug/fv
 run() { # name args...
   n=$1; shift
   $FV "$@" --out /verif/work/shake/$n.ndjson > /dev/null 2>&1
-  r=$(MON_C01=1 MON_C06=1 MON_C07=1 MON_C08=1 MON_C09=1 MON_C10=1 MON_C11=1 MON_C12=1 MON_C13=1 MON_C14=1 MON_C15=1 MON_C16=1 MON_C17=1 MON_C19=1 /verif/tools/tv.sh Trace_Node /verif/work/shake/$n.ndjson /verif/work/shake/md.$n | grep -E '"RESULT"|rror' | cut -c1-1500)
+  r=$(MON_C01=1 MON_C06=1 MON_C07=1 MON_C08=1 MON_C09=1 MON_C10=1 MON_C11=1 MON_C12=1 MON_C13=1 MON_C14=1 MON_C15=1 MON_C16=1 MON_C17=1 MON_C19=1 /verif/tools/tv.sh Trace_Node /verif/work/shake/$n.ndjson /verif/work/shake/md.$n | grep -E '"RESULT"|rror' | cut -c1-6000)
   echo "$n $r" | python3 -c "
 import sys,re,json
 l=sys.stdin.read()
